@@ -9,6 +9,9 @@ open ZeepVerif.Spec ZeepVerif.Inflector
 
 structure G where
   seed : Nat
+  /-- draw names from a handful of words only, so that local names are reused across namespaces and
+      across kinds (type, element, local element, attribute): the C09 stream -/
+  smallPool : Bool := false
   /-- PascalCase images already used for type-like items, per namespace -/
   usedTypes : List (Nat × String) := []
 deriving Inhabited
@@ -72,8 +75,13 @@ def rustPrimNames : List String := ["String", "Vec", "Option", "Box", "Rc", "Sel
 
 /-- a fresh type-like name in namespace `ns`: its PascalCase image is new there (NamesSeparated) and is
     not a name the prelude of every generated file already uses -/
+def collideWords : List String := ["item", "order", "user name", "type", "data 2", "status", "int", "date", "long", "boolean"]
+
+def pickWord : M String := do
+  if (← get).smallPool then pick collideWords else pick words
+
 partial def freshTypeName (ns : Nat) : M String := do
-  let w ← pick words
+  let w ← pickWord
   let st ← below 6
   let n := styled w st
   let n ← if (← chance 1 4) then pure (n ++ toString (← below 9)) else pure n
@@ -87,7 +95,7 @@ partial def freshTypeName (ns : Nat) : M String := do
 
 /-- member names: distinct snake_case images within one struct -/
 partial def freshMemberName (used : List String) : M String := do
-  let w ← pick words
+  let w ← pickWord
   let n := styled w (← below 6)
   let n ← if (← chance 1 5) then pure (n ++ toString (← below 9)) else pure n
   let sn := Ref.fieldName n
@@ -304,7 +312,7 @@ def genSchemaSet (cyclic : Bool) : M SchemaSet := do
     files := files ++ [{ fileName := "f" ++ toString ns ++ ".xsd", tns := ns, prefixes := prefixes, imports := imports, comps := shuffled }]
   pure { uris := uris, files := files, start := start }
 
-def run (seed : Nat) (cyclic : Bool := false) : SchemaSet :=
-  ((genSchemaSet cyclic).run { seed := seed * 2654435761 + 12345 }).1
+def run (seed : Nat) (cyclic : Bool := false) (smallPool : Bool := false) : SchemaSet :=
+  ((genSchemaSet cyclic).run { seed := seed * 2654435761 + 12345, smallPool := smallPool }).1
 
 end ZeepVerif.Spec.Gen
